@@ -240,3 +240,42 @@ package verifspec
 //@   param c cacheable importPath srcModTime
 //@ extern build/cache.Cache.Store
 //@   param c cacheable importPath buildTime
+
+// ---- BuildFiles: the ephemeral package built from a list of files has no unique import path, so it must never be served
+// from the cache: it is handed on with a time stamp in the future (later than the instant it is built at), against which
+// every stored entry is out of date.
+//@ pure durPos(d int) bool
+//@ extern time.Now
+//@   ghost nowI = tinst(result.wall, result.ext)
+//@ extern time.Time.Add
+//@   param t d
+//@   assigns nothing
+//@   ensures d > 0 ==> tinst(result.wall, result.ext) > tinst(t.wall, t.ext)
+//@ extern build.Session.BuildProject
+//@   param s pkg
+//@ extern build.Session.WriteCommandPackage
+//@   param s archive pkgObj
+//@ extern compiler/incjs.FromFilename
+//@   param name
+//@ extern go/build.Context.Import
+//@   param ctx path srcDir mode
+//@   results p err
+//@   ensures err == nil ==> p != nil
+//@ extern path/filepath.Join
+//@ extern path/filepath.IsAbs
+//@ extern path/filepath.Clean
+//@ extern sort.Strings
+//@   param x
+//@   assigns elems(x)
+//@ extern strings.Join
+//@ extern go/types.Package.Name
+//@   param p
+//@ func build.Session.BuildFiles
+//@ property C20
+//@   panics_only_if true
+//@   requires s != nil && len(global("go/build.Default").ReleaseTags) >= 20
+//@   ghost nowI = 0
+//@   loop 1 invariant !isnil(dirSet)
+//@   loop 2 invariant true
+//@   loop 4 invariant 0 <= $i4 && $i4 <= len(filenames) && pkg != nil && tinst(pkg.SrcModTime.wall, pkg.SrcModTime.ext) > nowI
+//@   oncall BuildProject: assert a0 != nil && tinst(a0.SrcModTime.wall, a0.SrcModTime.ext) > nowI
